@@ -493,3 +493,128 @@ def shipped_reference_rule(R, cfg, lib, zs):
             R.violation('R12', c, cloc, '%s at %s UTC: the extended processor on the shipped tables answers (total offset, DST offset, abbreviation) = %s, the reference on the recorded lines %s '
                         '(%d of %d instants differ)' % (z, EPOCH + _dt.timedelta(seconds=e), got[e], reference[z][e], len(diffs), len(instants_of[z])))
 
+
+def reference_timeline(cfg, zs, info, years):
+    """[(start epoch second, total offset, DST offset, abbreviation)] of the interpreted reference over the years, ascending, without
+    repeats: what the zone is at from each start on"""
+    from .pyeval import PyEval
+    ctor = zs.fn('ZoneSpecifier.__init__')
+    first = [p_ for p_ in ctor.params if p_ != 'self'][0]
+    pev = PyEval(cfg, max_steps=400000000)
+    spec = pev.instantiate(zs, 'ZoneSpecifier', kwargs={first: info})
+    out = {}
+    for y in years:
+        pev.call(zs, 'ZoneSpecifier.init_for_year', [y], recv=spec)
+        for tr in spec.attrs.get('transitions') or []:
+            s_ = tr.attrs.get('startEpochSecond')
+            r = pev.call(zs, 'Transition.to_timezone_tuple', [], recv=tr)
+            if isinstance(s_, int):
+                out[s_] = (r.total_offset, r.dst_offset, r.abbrev)
+    line = []
+    for s_ in sorted(out):
+        if not line or line[-1][1:] != out[s_]:
+            line.append((s_,) + out[s_])
+    return line
+
+
+def local_time_rule(R, cfg, lib, rid='R4'):
+    """C07 on the model zones through the real processors (no stand-in for the zone): getOffsetDateTime(local date-time) of
+    ExtendedZoneProcessor and BasicZoneProcessor is interpreted in full on the local times one second before / at / inside / at the end
+    of / just after every gap and overlap of the years 2004..2006 and on ordinary noons; the timeline of the interpreted reference
+    says which local times exist once, twice or not at all.  Once: the same fields with the offset in force.  Twice: one of the two
+    readings - the later one for the extended processor.  Not at all: the instant obtained with the offset in force before the gap,
+    i.e. the wall time moved forward by the length of the gap.  Always: the offset the result carries is the zone's offset at the
+    instant it denotes."""
+    from . import pipeline, py
+    from .aeval import AEval, AObj, CxxModule, Raised
+    from .rules_C04b import _cstring_ops
+    R.rule(rid, 'getOffsetDateTime() of both processors, interpreted in full on the model zones, resolves local times that exist once, twice and not at all as the property says', floor=4)
+    zs = py.load(cfg, 'tools/zonedb/zone_specifier.py')
+    infos, TX, _tzdb = compile_models(cfg)
+    swb = pipeline.sweep(cfg, 'basic', text=MODEL_TEXT, tag='models')
+    mod = CxxModule(lib, ['ace_time::'])
+    intr = _cstring_ops()
+
+    def call(f, args, recv=None):
+        return AEval(module=mod, intrinsics=intr, typed=True, max_steps=3000000).call_function(f.name, list(args), recv=recv, chosen=CxxModule._Fn(f))
+
+    def fn(q, n=None):
+        fs = [f for f in lib.fns(q) if n is None or len(f.params) == n]
+        if not fs:
+            raise AnalysisError('anchor vanished: %s' % q)
+        return fs[0]
+    ldt_for = fn('ace_time::LocalDateTime::forComponents', 6)
+    odt_epoch = fn('ace_time::OffsetDateTime::toEpochSeconds', 0)
+    odt_err = fn('ace_time::OffsetDateTime::isError', 0)
+    odt_off = fn('ace_time::OffsetDateTime::timeOffset', 0)
+    to_min = fn('ace_time::TimeOffset::toMinutes', 0)
+    getters = [fn('ace_time::OffsetDateTime::' + k, 0) for k in ('year', 'month', 'day', 'hour', 'minute', 'second')]
+    years = (2003, 2004, 2005, 2006, 2007)
+    for scope, T, cls in (('extended', TX, 'ace_time::ExtendedZoneProcessor'), ('basic', swb.T, 'ace_time::BasicZoneProcessor')):
+        f = fn(cls + '::getOffsetDateTime', 1)
+        graph = zone_graph(lib, T, scope)
+        zones = sorted(z for z in graph if z in infos and (scope == 'extended' or z not in BASIC_OUTSIDE))
+        for zname in zones:
+            line = reference_timeline(cfg, zs, infos[zname], years)
+
+            def at(e, line=line):
+                cur = None
+                for s_, tot, _d, _a in line:
+                    if s_ <= e:
+                        cur = tot
+                return cur if cur is not None else line[0][1]
+            locals_ = set()
+            for i in range(1, len(line)):
+                T_, oa = line[i][0], line[i][1]
+                ob = line[i - 1][1]
+                when = EPOCH + _dt.timedelta(seconds=T_)
+                if ob == oa or not (2004 <= when.year <= 2006):
+                    continue
+                lo, hi = T_ + min(ob, oa), T_ + max(ob, oa)
+                for l_ in (lo - 1, lo, (lo + hi) // 2, hi - 1, hi, hi + 3600):
+                    locals_.add(l_)
+            for y in (2004, 2005, 2006):
+                for m in (1, 4, 7, 10):
+                    locals_.add(_secs(_dt.datetime(y, m, 15, 12, 0)))
+            c = '%s[%s]:local-times' % (f.name, zname)
+            bad, n = None, 0
+            P = _build(lib, cls)
+            P.attrs['mZoneInfo'].attrs['mZoneInfo'] = graph[zname]
+            offs = sorted({x[1] for x in line})
+            try:
+                for l_ in sorted(locals_):
+                    when = EPOCH + _dt.timedelta(seconds=l_)
+                    fields = (when.year, when.month, when.day, when.hour, when.minute, when.second)
+                    rs = sorted({(l_ - tot, tot) for tot in offs if at(l_ - tot) == tot})
+                    odt = call(f, [call(ldt_for, list(fields))], recv=P)
+                    n += 1
+                    txt = '%s local time %04d-%02d-%02d %02d:%02d:%02d' % ((zname,) + fields)
+                    if not isinstance(odt, AObj) or call(odt_err, [], recv=odt):
+                        bad = bad or '%s: the result is the error value' % txt
+                        continue
+                    e = call(odt_epoch, [], recv=odt)
+                    tot = 60 * call(to_min, [], recv=call(odt_off, [], recv=odt))
+                    out = tuple(call(g, [], recv=odt) for g in getters)
+                    if at(e) != tot:
+                        bad = bad or '%s: the result denotes the instant %d with a UTC offset of %d s, but the zone is at %d s then: it does not survive a round trip through its own instant' % (txt, e, tot, at(e))
+                    elif len(rs) == 1 and (out != fields or (e, tot) != rs[0]):
+                        bad = bad or '%s exists exactly once (offset %d s) but comes back as %s with offset %d s' % (txt, rs[0][1], out, tot)
+                    elif len(rs) == 2 and (e, tot) not in rs:
+                        bad = bad or '%s exists twice and comes back as neither of its readings (%s, offset %d s)' % (txt, out, tot)
+                    elif len(rs) == 2 and scope == 'extended' and (e, tot) != rs[-1]:
+                        bad = bad or '%s exists twice; the extended processor returns the earlier reading (offset %d s), the property asks for the later one' % (txt, tot)
+                    elif len(rs) == 0:
+                        # the offset in force before the gap: the gap is the transition whose wall-clock jump contains l_
+                        ob_ = next((line[i - 1][1] for i in range(1, len(line)) if line[i][0] + line[i - 1][1] <= l_ < line[i][0] + line[i][1]), None)
+                        if ob_ is None:
+                            bad = bad or '%s: internal: no gap found around a local time without a reading' % txt
+                        elif e != l_ - ob_:
+                            bad = bad or '%s falls in a gap; the result denotes the instant %d, the offset in force before the gap (%d s) gives %d' % (txt, e, ob_, l_ - ob_)
+            except Raised as x_:
+                bad = bad or 'interpretation raises %s' % x_.what
+            except IndexError as x_:
+                bad = bad or 'a read or write outside an array (%s)' % x_
+            R.instance(rid, c, f.loc, '%d local times' % n)
+            if bad:
+                R.violation(rid, c, f.loc, bad)
+
